@@ -206,6 +206,8 @@ func (m *chainMachine) bDeployCreate(t *rapid.T) (cmBuilt, bool) {
 		var cands []uint64
 		for _, d := range m.snap.deployments {
 			if d.DeploymentID.Owner != ten.bech {
+				// ... or the very number another account uses
+				cands = append(cands, d.DeploymentID.DSeq)
 				continue
 			}
 			for _, c := range cmDSeqs {
@@ -634,7 +636,7 @@ func (m *chainMachine) aAdvance(t *rapid.T) {
 	m.advance(g)
 	// sometimes the first transaction to reach an account that ran dry during the gap is the
 	// tenant's top-up (rather than a withdrawal or a close)
-	if due := m.overdueAccounts(); len(due) > 0 && rapid.IntRange(0, 2).Draw(t, "lateTopUp") == 0 {
+	if due := m.overdueAccounts(); len(due) > 0 && rapid.IntRange(0, 7).Draw(t, "lateTopUp") == 0 {
 		a := due[m.pick(t, "overdue", len(due))]
 		if dd, ok := m.snap.deploymentOfAccount(a.ID); ok {
 			did := dd.DeploymentID
@@ -767,7 +769,9 @@ func (m *chainMachine) actions(prof cmProfile) map[string]func(*rapid.T) {
 	add("marketRound", m.aMarketRound)
 	add("withdrawThenClose", m.aWithdrawThenClose)
 	add("exhaustExactly", m.aExhaustExactly)
-	add("leaseChurn", m.aLeaseChurn)
+	if prof.weights != nil && prof.weights["leaseChurn"] > 0 {
+		add("leaseChurn", m.aLeaseChurn)
+	}
 	if prof.weights != nil && prof.weights["boundaryDeploy"] > 0 {
 		add("boundaryDeploy", m.aBoundaryDeploy)
 	}
